@@ -135,24 +135,68 @@ Proof.
   destruct (drop_cells c t None) as [[evs f''] p]. cbn [fst snd] in *. destruct IH as [-> ->]. auto.
 Qed.
 
+Lemma clear_cols_events_clean : forall comps len cols f, (forall col, In col cols -> col_clean len col) ->
+  double_drops (snd (fst (clear_cols comps len cols f))) = [].
+Proof.
+  induction comps as [|c comps IH]; intros len cols f HC'; cbn [clear_cols]; [reflexivity|].
+  destruct cols as [|col cols']; [reflexivity|].
+  pose proof (drop_cells_clean c (firstn len col) f (firstn_clean len col (HC' col (or_introl eq_refl)))) as D.
+  destruct (drop_cells c (firstn len col) f) as [[evs0 f'] panicked]. cbn [fst snd] in *.
+  destruct panicked; [exact D|].
+  pose proof (IH len cols' f' (fun y Hy => HC' y (or_intror Hy))) as D'.
+  destruct (clear_cols comps len cols' f') as [[r evs1] p1]. cbn [fst snd] in *.
+  unfold double_drops in *. rewrite flat_map_app, D, D'. reflexivity.
+Qed.
+
+Lemma clear_cols_nofault : forall comps len cols, snd (clear_cols comps len cols None) = false.
+Proof.
+  induction comps as [|c comps IH]; intros len cols; cbn [clear_cols]; [reflexivity|].
+  destruct cols as [|col cols']; [reflexivity|].
+  destruct (drop_cells_nofault c (firstn len col)) as [P F].
+  destruct (drop_cells c (firstn len col) None) as [[evs0 f'] panicked]. cbn [fst snd] in *. subst panicked f'.
+  specialize (IH len cols'). destruct (clear_cols comps len cols' None) as [[r evs1] p1]. cbn [fst snd] in *. exact IH.
+Qed.
+
+Lemma clear_cols_length : forall comps len cols f, length (fst (fst (clear_cols comps len cols f))) = length cols.
+Proof.
+  induction comps as [|c comps IH]; intros len cols f; cbn [clear_cols]; [reflexivity|].
+  destruct cols as [|col cols']; [reflexivity|].
+  destruct (drop_cells c (firstn len col) f) as [[evs0 f'] panicked]. destruct panicked; [reflexivity|].
+  specialize (IH len cols' f'). destruct (clear_cols comps len cols' f') as [[r evs1] p1]. cbn [fst snd length] in *. rewrite IH. reflexivity.
+Qed.
+
 Theorem clear_clean : forall a a' evs p, Clean a -> p_clear a None = (a', evs, p) ->
   p = false /\ pa_len a' = 0 /\ double_drops evs = [].
 Proof.
-  intros a a' evs p [HL HC] H. unfold p_clear in H.
-  assert (G : forall comps len cols, (forall col, In col cols -> col_clean len col) ->
-              snd (clear_cols comps len cols None) = false /\ double_drops (snd (fst (clear_cols comps len cols None))) = []).
-  { induction comps as [|c comps IH]; intros len cols HC'; cbn [clear_cols]; [auto|].
-    destruct cols as [|col cols']; [auto|].
-    pose proof (drop_cells_clean c (firstn len col) None (firstn_clean len col (HC' col (or_introl eq_refl)))) as D.
-    destruct (drop_cells_nofault c (firstn len col)) as [P F].
-    destruct (drop_cells c (firstn len col) None) as [[evs0 f'] panicked]. cbn [fst snd] in *. subst panicked f'.
-    destruct (IH len cols' (fun y Hy => HC' y (or_intror Hy))) as [P' D'].
-    destruct (clear_cols comps len cols' None) as [[r evs1] p1]. cbn [fst snd] in *. subst p1.
-    split; [reflexivity|]. unfold double_drops in *. rewrite flat_map_app, D, D'. reflexivity. }
-  destruct (G (bits_on (pa_shape a)) (pa_len a) (pa_cols a) HC) as [P D].
+  intros a a' evs p [HL HC] H. unfold p_clear, p_clear_gen in H.
+  pose proof (clear_cols_nofault (bits_on (pa_shape a)) (pa_len a) (pa_cols a)) as P.
+  pose proof (clear_cols_events_clean (bits_on (pa_shape a)) (pa_len a) (pa_cols a) None HC) as D.
   destruct (clear_cols (bits_on (pa_shape a)) (pa_len a) (pa_cols a) None) as [[cols evs0] unw]. cbn [fst snd] in *.
   subst unw. inversion H; subst. cbn. auto.
 Qed.
+
+(** with the length set first, a panic in any Drop during clear leaves an empty archetype: nothing is
+    dropped twice, then or when the world is dropped (with or without a further panic) *)
+Theorem clear_fault_safe : forall a f f', Clean a ->
+  let '(a', evs, _) := p_clear_gen true a f in
+  pa_len a' = 0 /\ double_drops evs = [] /\ double_drops (fst (p_drop_arch a' f')) = [].
+Proof.
+  intros a f f' [HL HC]. unfold p_clear_gen.
+  pose proof (clear_cols_events_clean (bits_on (pa_shape a)) (pa_len a) (pa_cols a) f HC) as D.
+  pose proof (clear_cols_length (bits_on (pa_shape a)) (pa_len a) (pa_cols a) f) as L.
+  destruct (clear_cols (bits_on (pa_shape a)) (pa_len a) (pa_cols a) f) as [[cols evs0] unw]. cbn [fst snd] in *.
+  rewrite andb_false_r. split; [reflexivity|]. split; [exact D|].
+  apply drop_clean_no_double. split; cbn [pa_cols pa_shape pa_len]; [rewrite L; exact HL|].
+  intros col _ r Hr. lia.
+Qed.
+
+Lemma fact_clear_first : fact_clear_sets_length_first = true.
+Proof. reflexivity. Qed.
+
+Theorem clear_fault_safe_src : forall a f f', Clean a ->
+  let '(a', evs, _) := p_clear a f in
+  pa_len a' = 0 /\ double_drops evs = [] /\ double_drops (fst (p_drop_arch a' f')) = [].
+Proof. intros a f f' H. unfold p_clear. rewrite fact_clear_first. exact (clear_fault_safe a f f' H). Qed.
 
 (** * The archetype of the logical layer is clean *)
 Lemma parch_of_clean a spare : (forall rw, In rw (a_rows a) -> length (snd rw) = count_true (a_shape a)) ->
@@ -179,6 +223,6 @@ Proof. vm_compute. auto. Qed.
 
 (** a panic in a Drop during clear: the emptied column is dropped again at world drop *)
 Lemma clear_fault_double_drop :
-  let '(a', _, unwound) := p_clear w_arch (Some 1) in
+  let '(a', _, unwound) := p_clear_gen false w_arch (Some 1) in
   unwound = true /\ double_drops (fst (p_drop_arch a' None)) = [(0, 11%N); (0, 21%N); (0, 31%N)].
 Proof. vm_compute. auto. Qed.
